@@ -1646,6 +1646,27 @@ pub fn params_sequence_agrees_with_parse() -> Value {
 			}
 		}
 	}
+	// the empty array however it is spelled: the FIRST read, plain or optional, already reports exhaustion / `absent`
+	for t in ["[]", "[ ]", "[  ]", "[\n]", "[\t]", "[\r\n]", "[ \r\n\t ]", " [ ] ", "[ ]\n"] {
+		if serde_json::from_str::<Vec<Value>>(t).ok() != Some(vec![]) { continue; }
+		tried += 1;
+		let p = Params::new(Some(t));
+		match p.sequence().optional_next::<Value>() {
+			Ok(None) => {}
+			other => return fail(t, format!("first optional read of an empty array: {:?}", other.map_err(|e| e.code())), "Ok(None)".into()),
+		}
+		match p.sequence().optional_next::<u64>() {
+			Ok(None) => {}
+			other => return fail(t, format!("first typed optional read of an empty array: {:?}", other.map_err(|e| e.code())), "Ok(None)".into()),
+		}
+		match p.sequence().next::<Value>() {
+			Err(e) if e.code() == -32602 && e.data().map_or(false, |d| d.get().contains("No more params")) => {}
+			other => return fail(t, format!("first read of an empty array: {:?}", other.map_err(|e| (e.code(), e.data().map(|d| d.get().to_string())))), "exhaustion (error -32602 'No more params')".into()),
+		}
+		if p.parse::<Vec<Value>>().ok() != Some(vec![]) || p.parse::<[u8; 0]>().is_err() {
+			return fail(t, "Params::parse disagrees with serde_json::from_str".into(), "[]".into());
+		}
+	}
 	// absent params behave as null / the empty array
 	let absent = Params::new(None);
 	if absent.sequence().next::<Value>().is_ok() || absent.parse::<Option<u8>>().ok() != Some(None) {
